@@ -232,18 +232,20 @@ pub fn o_callbacks(plan: &Plan, out: &Outcome, vs: &mut Vec<Violation>) {
                 }
             },
             Routing::NeverWith(q) => {
-                for (_, g) in &got[gi..] {
-                    let carries = match g {
-                        Cb::Query(x) | Cb::Prepare(x) | Cb::Init(x) => x == q,
-                        _ => false,
-                    };
-                    if carries {
-                        vs.push(v(
-                            "callback-args",
-                            "non-utf8 text handed to shim",
-                            format!("unit {}: {}", i + 1, g.short()),
-                        ));
-                    }
+                // text that is not valid UTF-8 must not reach the shim in any form (verbatim,
+                // repaired or truncated): the generators put it last, so nothing may follow
+                if let Some((_, g)) = got.get(gi) {
+                    vs.push(v(
+                        "callback-args",
+                        "non-utf8 text handed to shim",
+                        format!(
+                            "unit {}: the client sent {} bytes that are not valid UTF-8 (fnv {:x}); the shim got {}",
+                            i + 1,
+                            q.len(),
+                            crate::rng::fnv(q),
+                            g.short()
+                        ),
+                    ));
                 }
                 return;
             }
